@@ -342,6 +342,34 @@ static void asyncVoidAndMoveOnly(int n, const std::string &ctx)
 
 // ------------------------------------------------------------------ AsyncTask
 static bool g_asan = false;
+static std::atomic<long> g_pollScenarios(0);
+static std::mutex g_stallMtx;
+static std::vector<std::string> g_stalls;
+#if defined(RKCOMMON_TASKING_TBB)
+static const char *kBackendName = "tbb";
+#elif defined(RKCOMMON_TASKING_OMP)
+static const char *kBackendName = "omp";
+#elif defined(RKCOMMON_TASKING_INTERNAL)
+static const char *kBackendName = "internal";
+#else
+static const char *kBackendName = "debug";
+#endif
+
+// end of a child process: turn recorded start stalls into violations.  A task that practically
+// never starts without the caller waiting is `not-finished-within-watchdog`; a stall that hits
+// fewer than 1 in 100 polled tasks gets its own key (it is a different defect: see DESIGN 9.3).
+static void judgeStalls()
+{
+  std::lock_guard<std::mutex> g(g_stallMtx);
+  if (g_stalls.empty())
+    return;
+  long polls = g_pollScenarios.load();
+  bool rare  = (long)g_stalls.size() <= 2 && polls >= 100 * (long)g_stalls.size();
+  for (size_t i = 0; i < g_stalls.size(); ++i)
+    vh::violation(rare ? std::string("C02:AsyncTask:rare-start-stall-until-waited:") + kBackendName : std::string("C02:AsyncTask:not-finished-within-watchdog"),
+                  std::to_string(g_stalls.size()) + " of " + std::to_string(polls) + " polled AsyncTasks of this process did not start within 12 s", g_stalls[i]);
+  g_stalls.clear();
+}
 
 template <typename T>
 static void asyncTaskScenario(int id, int timeline, int bodyDelayUs, const std::string &ctx)
@@ -366,9 +394,18 @@ static void asyncTaskScenario(int id, int timeline, int bodyDelayUs, const std::
   std::string c2 = ctx + " result=" + R<T>::name();
   switch (timeline) {
   case 0: {  // poll finished(), then get()
-    bool fin = waitUntil([&]() { return at->finished(); }, 30.0);
+    g_pollScenarios.fetch_add(1);
+    bool fin = waitUntil([&]() { return at->finished(); }, 12.0);
     if (!fin) {
-      vh::violation("C02:AsyncTask:not-finished-within-watchdog", "finished() still false after 30 s", c2);
+      // Not started although the caller only slept.  Is the task merely not being picked up
+      // (it completes as soon as the caller waits) or lost?  The verdict key is decided when
+      // the process has seen all its scenarios: a rare stall and a systematic one differ.
+      double w0 = vh::now();
+      T v       = at->get();
+      bool ok   = R<T>::eq(v, id);
+      std::lock_guard<std::mutex> g(g_stallMtx);
+      g_stalls.push_back(c2 + " [finished() still false after 12 s while the caller only slept; get() then " + (ok ? "returned the right value" : "returned a WRONG value") + " after " +
+                         std::to_string((vh::now() - w0) * 1000.0) + " ms]");
       break;
     }
     VH_CHECK(at->valid(), "C02:AsyncTask:valid-after-finished", "valid() false although finished() was true", c2);
@@ -603,6 +640,7 @@ int main(int argc, char **argv)
       break;
     std::vector<Case> cases = buildCases(T, g_asan, omp, internalBackend);
     bool inited = false;
+    vh::childExitHook() = judgeStalls;
     vh::forkedCases(
         (long)cases.size(),
         [&](long k) {
